@@ -102,62 +102,50 @@ Theorem C12_source_hashes_are_dot_suffixes :
 Proof. exact source_hashes_are_dot_suffixes. Qed.
 Print Assumptions C12_source_hashes_are_dot_suffixes.
 
-(* Faithful normalisation (idn_punycode, host component).  Outside finding F21 (no tab/LF/CR in
-   the authority of the input): the hostname is the host text of the input -- copied when ASCII,
-   its idna image otherwise --, the normalised URL continues after the host with exactly what
-   followed it in the input, which is empty or starts with : / ? # (\ for special schemes), the
-   host text contains none of / ? # @ (\), and -- outside finding F25, i.e. when idna never
-   returns a URL delimiter -- neither does the reported hostname. *)
+(* Faithful normalisation (idn_punycode, host component), for every request that is built: the
+   hostname is the host text of the input with tab/LF/CR dropped -- copied when ASCII, its idna
+   image otherwise --, the normalised URL continues after the host with exactly what followed it in
+   the input, which is empty or starts with : / ? # (\ for special schemes), and neither the host
+   text nor the reported hostname contains / ? # @ (\).  (Findings F21 and F25 were fixed in /repo
+   115106e; the former carve-outs are gone.) *)
 Theorem C12_normalisation_faithful :
   forall idna psl hash tokenize, idna_contract idna -> psl_contract psl ->
   forall u s t r input,
   Request_new idna psl hash tokenize u s t = Ok (Some r) ->
   decode_utf8 u = Some input ->
-  F21_ignored_chars_in_host input = false ->
-  exists sp host_cps rest_cps se hs he,
+  exists sp consumed rest_cps se hs he,
     scan idna u = Ok (POk (url r, se, hs, he)) /\
-    suffix_of (host_cps ++ rest_cps) (trim_input input) /\
-    host_out idna (encode_all host_cps) (hostname r) /\
+    suffix_of (consumed ++ rest_cps) (trim_input input) /\
+    host_out idna (encode_all (host_filter consumed)) (hostname r) /\
     drop he (url r) = encode_all rest_cps /\
-    existsb (host_forbidden sp) host_cps = false /\
+    existsb (host_forbidden sp) consumed = false /\
     (rest_cps = [] \/ exists c r', rest_cps = c :: r' /\ host_terminator sp c = true) /\
-    (idna_no_delimiter idna -> existsb (host_forbidden sp) (hostname r) = false).
+    existsb (host_forbidden sp) (hostname r) = false.
 Proof. exact normalisation_faithful. Qed.
 Print Assumptions C12_normalisation_faithful.
 
-(* decidable corollary for all-ASCII URLs: from host_start on, the normalised URL is a suffix of
-   the (trimmed) input *)
-Theorem C12_ascii_url_tail_copied :
+(* decidable corollary: from host_end on, the normalised URL is a suffix of the (trimmed) input *)
+Theorem C12_rest_copied :
   forall idna input ser se hs he, idna_contract idna ->
   scan_chars idna input = POk (ser, se, hs, he) -> (hs < he)%nat ->
-  F21_ignored_chars_in_host input = false ->
-  all_ascii (encode_all (trim_input input)) = true ->
-  is_suffixb (drop hs ser) (encode_all (trim_input input)) = true.
-Proof. exact ascii_url_tail_copied. Qed.
-Print Assumptions C12_ascii_url_tail_copied.
+  is_suffixb (drop he ser) (encode_all (trim_input input)) = true.
+Proof. exact rest_copied. Qed.
+Print Assumptions C12_rest_copied.
 
-(* F21 is real in the model: with a tab in the host the statement above fails
-   ("http://a<TAB>b.com/x" -> host "a<TAB>b.co"). *)
-Theorem C12_ascii_url_tail_copied_refuted_F21 :
-  exists input ser se hs he,
-    scan_chars (fun _ => None) input = POk (ser, se, hs, he) /\ (hs < he)%nat /\
-    F21_ignored_chars_in_host input = true /\
-    all_ascii (encode_all (trim_input input)) = true /\
-    is_suffixb (drop hs ser) (encode_all (trim_input input)) = false /\
-    slice ser hs he = Ok (bs "a" ++ [9] ++ bs "b.co").
-Proof. exact ascii_url_tail_copied_refuted_F21. Qed.
-Print Assumptions C12_ascii_url_tail_copied_refuted_F21.
+(* the inputs of the former findings: F21 "http://a<TAB>b.com/x" now scans to host "ab.com";
+   F25: an idna answer containing '/' is rejected and no request is built *)
+Theorem C12_F21_input_now_handled :
+  scan (fun _ => None) (bs "http://a" ++ [9] ++ bs "b.com/x") = Ok (POk (bs "http://ab.com/x", 4%nat, 7%nat, 13%nat)).
+Proof. exact F21_input_now_handled. Qed.
+Print Assumptions C12_F21_input_now_handled.
 
-(* F25: an idna oracle that meets idna_contract but answers with a '/' (as the real idna does for
-   U+FF0F) puts the delimiter inside the reported hostname. *)
-Theorem C12_hostname_no_delimiter_refuted_F25 :
-  exists idna u r input,
-    idna_contract idna /\
-    Request_new idna psl_whole (fun _ => 0) (fun _ => []) u [] [] = Ok (Some r) /\
-    decode_utf8 u = Some input /\ F21_ignored_chars_in_host input = false /\
-    existsb (host_forbidden false) (hostname r) = true /\ hostname r = bs "xn--/b-9ia.com".
-Proof. exact hostname_no_delimiter_refuted_F25. Qed.
-Print Assumptions C12_hostname_no_delimiter_refuted_F25.
+Theorem C12_F25_input_now_rejected :
+  let idna := fun _ : str => Some (bs "xn--/b-9ia.com") in
+  let u := hx "687474703a2f2fc3a9efbc8f622e636f6d2f78" in
+  idna_contract idna /\ scan idna u = Ok (PErr IdnaError) /\
+  Request_new idna psl_whole (fun _ => 0) (fun _ => []) u [] [] = Ok None.
+Proof. exact F25_input_now_rejected. Qed.
+Print Assumptions C12_F25_input_now_rejected.
 
 (* the tables regenerated from /repo/src equal the hand-written ones *)
 Theorem C12_cpt_table_is_L0 : cpt_table = cpt_table_L0 /\ cpt_default = RT_Other.
@@ -166,7 +154,9 @@ Print Assumptions C12_cpt_table_is_L0.
 
 Theorem C12_url_tables_are_L0 :
   url_special_schemes = special_schemes_L0 /\ url_file_schemes = ["file"%string] /\
-  url_ignored_next_utf8 = [9; 10; 13] /\ url_ignored_parse_host = [9; 10; 13] /\ url_trim_max = 32.
+  url_ignored_next_utf8 = [9; 10; 13] /\ url_ignored_parse_host = [9; 10; 13] /\
+  url_ignored_host_filter = [9; 10; 13] /\ url_trim_max = 32 /\
+  (forall b, idna_rejected b = true <-> b <= 32 \/ b = 127 \/ In b (bs "#/:<>?@[\]^|")).
 Proof. exact url_tables_are_L0. Qed.
 Print Assumptions C12_url_tables_are_L0.
 
